@@ -50,6 +50,8 @@ THEOREMS = {
     "C20_model_is_source_mse": "the translation of ModelEvaluation.mse (through the translated properties predictions / observations: `((P - o[:, None]) ** 2).mean()`), regenerated from /repo's models/main.py on this run (Generated/SrcMetrics.v), equals the model ev_mse for every evaluation object the constructor builds",
     "C20_model_is_source_mse_variance": "the translation of ModelEvaluation.mse_variance (`np.var(((P - o[:, None]) ** 2).mean(axis=1))`) equals ev_mse_variance for every constructed evaluation",
     "C20_model_is_source_inter_chain_mse_variance": "the translation of ModelEvaluation.inter_chain_mse_variance (the loop over np.unique(chain_ids), the mask chain_ids == chain_id, the column selection P[:, mask], the per-chain mean, the append, np.var(np.array(mses))) equals ev_inter_chain for every constructed evaluation",
+    "C20_model_is_source_predict_viability_avg": "the translation of the whole function models/main.py predict_viability_avg (zeros, the range loop with get_theta / predict_viability, the NaN raise, result = result + sub_result, result / n_thetas), thetas seen as the list of their prediction vectors, equals: ValueError if a prediction has another length than the screen, else the model predict_avg (NaN for no theta on a non-empty screen)",
+    "C20_model_is_source_calculate_mse": "the translation of the whole function retrospective.calculate_mse (call of the translated predict_viability_avg, np.mean((preds - observations) ** 2)) equals the model calculate_mse for all inputs",
     "C20_model_is_source_combination_count": "the translation of models/main.py combination_count (math.factorial raising on a negative argument, //) equals the model combination_count on naturals",
     "C20_model_is_source_generate_full_combinatoric_space": "the translation of the WHOLE function generate_full_combinatoric_space, regenerated from /repo on this run (Generated/SrcSpace.v), on mapping rows ((name, dose), id), equals the model full_space on the rows (key, id), for every numbering key of the (name, dose) pairs that is injective on the mapping's pairs: the size guard and its raise, zip of the mapping's name and dose columns, itertools.combinations of ALL rows with the screen's arity, the two projections, dict(zip(ids, names))[sample_id], the replicated sample name, and Screen(...) called with the screen's OWN sample_mapping and treatment_mapping",
     "C20_source_synergy_def": "hence, on well-formed input, the TRANSLATED calculate_synergy equals the row-by-row definition synergy_def (C20_synergy_def composed with the link)",
@@ -115,8 +117,14 @@ EXPLANATION = ("Model: Model/Metrics.v, Model/Synergy.v, Model/Corr.v; definitio
                "values; and ONE large one: Screen(names, doses, sample names, plate names, sample_mapping, treatment_mapping) with both "
                "mappings supplied = keyed lookup of every sample name and every (name, dose) pair in the supplied mapping, ValueError on "
                "a miss (Corr.space_screen; the pandas-merge assumption above), returning (sample_ids, treatment_ids); plate names unmodelled. "
-               "Not linked (left to the correspondence): retrospective.calculate_mse / predict_viability_avg, "
-               "correlation_matrix, mean_predictions, save_h5 / load_h5.")
+               "predict_viability_avg (models/main.py) and retrospective.calculate_mse are re-translated (C20_PREDICT_AVG, C20_CALC_MSE) and "
+               "proved equal to predict_avg / calculate_mse for all inputs; there a theta is the prediction vector it gives on the screen and "
+               "the observed screen is its observations.  Trusted primitives: screen.size; np.zeros((n,)); thetas.n_thetas = number of thetas; "
+               "thetas.get_theta(i) = the i-th (Python list indexing); theta.predict_viability(screen) = that theta's vector; np.isnan = "
+               "nowhere on exact rationals, m.any(); `a + b` / `a - b` on equal-length vectors (else Err); `v / n` entrywise, n = 0: NaN "
+               "for zero entries (inf, unmodelled tag 96, for others - proved not to occur); `x ** 2`; np.mean (NaN when empty); "
+               "screen.observations; Screen.size = len(observations) at the call of predict_viability_avg.  "
+               "Not linked (left to the correspondence): correlation_matrix, mean_predictions, save_h5 / load_h5, the other predict_* helpers.")
 
 TAGS = {1: "ValueError", 4: "IndexError", 5: "KeyError"}
 NAN = "nan"
